@@ -533,6 +533,14 @@ func c04(env *core.Env, kind string, faulty bool) {
 			break
 		}
 		failedHere("Commit", err)
+		// The closing request may have been applied although its answer was lost, or been
+		// delivered twice: then the blob is there, and whether its session can still be
+		// resumed is the registry's business (the statement is about what gets committed).
+		// A caller finds out the same way: by asking for the blob.
+		if _, rerr := r.st.Mem.ResolveBlob(r.ctx, r.repo, dig); rerr == nil {
+			env.Probe("c04:commit-applied-although-reported-failed")
+			break
+		}
 		pos = r.recoverSession("commit failed")
 	}
 	if faulty && r.faults == 0 {
